@@ -108,6 +108,13 @@ theorem to_array_default_succeeds (i : IIndex) (h : WF i) (hnd : i.ndim ≤ 2)
     (hdom : C19.Dom (dtypeExtremes i).1 (dtypeExtremes i).2) : ∃ arr, toArray i none none = .ok arr :=
   toArray_default_succeeds i h hnd hdom
 
+/-- the same for the CURRENT `to_array` (regenerated): with the default dtype - chosen by the regenerated `fit_dtype` from the
+values the regenerated method collects - densifying a well-formed index cannot raise -/
+theorem generated_to_array_default_succeeds (i : IIndex) (h : WF i) (hnd : i.ndim ≤ 2)
+    (hdom : C19.Dom (dtypeExtremes i).1 (dtypeExtremes i).2) : ∃ arr, Gen.toArrayPlainGen i none = .ok arr := by
+  rw [gen_toArray_eq]
+  exact toArray_default_succeeds i h hnd hdom
+
 /-- the two strategies cannot be told apart through the dense content (corollary) -/
 theorem strategy_invisible (a : Arr) (o : FromOpts) (i1 i2 : IIndex) (harr : ArrOK a)
     (cm : Int) (es1 es2 : List (Key × Rows))
